@@ -37,6 +37,7 @@ def gen_plan(seed, i, tier):
             if rng.chance(0.3):
                 s['under_node'] = rng.below(4)
         init = {'settle': rng.chance(0.5), 'builder': {'version': ver, 'salt': rng.below(1 << 30), 'nodes': rng.below(5), 'shapes': shapes}}
+        hist.maybe_attach(rng, init, 0.4, len(shapes))
     else:
         types = synth.block_types()
         if rng.chance(0.5):
